@@ -173,7 +173,7 @@ def run(tier, seed):
                       function="prompt_user", obj="S-prompt")
 
         # recursion
-        rid = rep.rule("R1r", "recursion: the only cycle in the call graph is match_glob -> match_glob, whose string argument advances", 1)
+        rid = rep.rule("R1r", "recursion: every call-graph cycle is a direct recursion that advances a string argument, or the listed depth-2 cycle of the MacBinary pass-through", 1)
         # strongly connected components via simple DFS
         names = [f.name for f in mod.defined()]
         rec = set()
@@ -183,11 +183,43 @@ def run(tier, seed):
         allowed = {"match_glob": "direct recursion on a shorter pattern (checked below)",
                    "lha_decoder_read": "the MacBinary pass-through decoder reads from its inner decoder through the same API: depth 2 (support: the pass-through type is not in decoders[], so an inner decoder is never a pass-through)",
                    "macbinary_decoder_read": "see lha_decoder_read", "decode_to_end": "see lha_decoder_read", "read_macbinary_header": "see lha_decoder_read"}
+        def advances(f):
+            """direct self-recursion that is well founded on a string: every recursive call passes, in some pointer position k, a pointer one or
+            more elements past a value that itself derives from parameter k (so the remaining string gets shorter), under a fact that the
+            element being passed over is not the terminator"""
+            Mf, Ff = Matcher(f), ctx.facts(f)
+            sites = [c for c in f.insts() if c.op == "call" and c.callee == f.name]
+            if not sites:
+                return False
+            for c in sites:
+                good = False
+                for k, a in enumerate(c.ops[:len(f.params)]):
+                    e = Mf.match(("gep", ("bind", "x"), [("bind", "n", ("const",))]), a, {})
+                    if e is None or const_val(e["n"]) < 1:
+                        continue
+                    srcs = [Mf.strip(x, ("bitcast",)) for x, _ in Ff.sources(e["x"])]
+                    from_k = all(x == ("v", f.params[k].id) or (f.defn(x) is not None and not f.defn(x).is_param and f.defn(x).op == "getelementptr") for x in srcs) and \
+                        any(x == ("v", f.params[k].id) for x in srcs)
+                    alive = False
+                    for fct in Ff.at_inst(c):
+                        if e["x"][0] == "v" and Mf.match(("load", ("inst", e["x"][1])), fct[1], {}) is not None and is_const(fct[2]):
+                            if (fct[0] == "ne" and const_val(fct[2]) == 0) or (fct[0] == "eq" and const_val(fct[2]) != 0):
+                                alive = True
+                    if from_k and alive:
+                        good = True
+                if not good:
+                    return False
+            return True
         for r_ in sorted(rec):
-            if r_ in allowed:
+            fr_ = mod.fn(r_)
+            callees_ = cg.edges.get(fr_.name, ()) if fr_ else ()
+            if r_ in allowed and r_ != "match_glob":
                 rep.assumed(rid, "cycle through %s" % r_, "E-recursion:%s" % r_, allowed[r_])
+            elif fr_ is not None and fr_.name in callees_ and advances(fr_):
+                rep.ok(rid, "%s: direct recursion on a strictly shorter string" % r_, "every recursive call advances a pointer argument past a non-terminator element", "%s:%s" % (fr_.file, fr_.line))
             else:
-                rep.violation(rid, "unexpected recursion through %s" % r_, "call graph", "function lies on a call-graph cycle", function=r_, obj="recursion")
+                rep.violation(rid, "unexpected recursion through %s" % r_, "call graph", "function lies on a call-graph cycle and is neither a listed depth-bounded cycle nor a "
+                              "direct recursion that advances a string argument", function=r_, obj="recursion")
         # support: macbinary_decoder_type is not reachable from the decoders[] table
         dec = mod.globals.get("decoders")
         names = set()
@@ -198,13 +230,6 @@ def run(tier, seed):
                         names.add(x["v"][1])
         rep.check(rid, bool(names) and "macbinary_decoder_type" not in names, "the pass-through type is not selectable by method name", "lha_decoder.c", "decoders[] -> %s" % sorted(names)[:4],
                   function="decoders", obj="no-passthrough")
-        mg = mod.fn("match_glob")
-        if mg and "match_glob" in rec:
-            M = Matcher(mg)
-            for c in mg.calls("match_glob"):
-                # the recursive call passes glob + 1
-                rep.check(rid, M.match(("gep", ANY, [1]), c.ops[0], {}) is not None, "recursive call consumes one pattern character", c.where(), None, function="match_glob", obj="advance")
-
         # ---- R2 allocation sizes --------------------------------------------------------------------------
         rid = rep.rule("R2", "allocation sizes in lib/ are linear forms over admissible symbols with the ceilings in force", 12)
         nalloc = 0
